@@ -687,8 +687,8 @@ func c35Classify(c *c35Case, carried []c35Carried, k int, exp, got [][]byte) (si
 		// the writer opened its gate later than the first keyframe unit
 		first := carried[k]
 		sig = fmt.Sprintf("%s-first-dropped:%s:%s", ft, codec, fkind)
-		if len(c.Packets[first.Pkt]) < 4 {
-			sig += ":short"
+		if c.Codec == c35H264 && len(c.Packets[first.Pkt]) < 4 {
+			sig += ":short" // payloads of 1..3 bytes: a distinct cause in a reader of 32-bit words
 		}
 		started := "never (0 bytes written)"
 		if len(got) > 0 {
@@ -760,7 +760,7 @@ func TestVerifC35(t *testing.T) {
 	run.Assume("generated units are valid for the Annex-B read-back (no 00 00 00 / 00 00 01 inside, last byte non-zero), F bit 0, H.264 types 1..23, H.265 types 0..47 with >= 1 byte after the 2-byte header")
 	run.Assume("the read-back uses h264reader/h265reader with WithIncludeSEI(true) (their default drops SEI; their framing is the subject of C34)")
 
-	n := kit.N(6000, 200000)
+	n := kit.N(20000, 1000000)
 	run.Parallel(n, 16, func(i int) {
 		r := run.CaseRand(i)
 		codec := i % 2
